@@ -260,7 +260,10 @@ def gen_val(rng, strings_only=False, no_none=False):
     return [2, rng.randrange(2), 0]
 
 
-def gen_desc(rng):
+def gen_desc(rng, benign=False):
+    if benign:                                   # validators that accept and transform ints (the body is reached)
+        return rng.choice([['ident'], ['add', rng.choice([-2, 1, 3])], ['max', 50], ['nonetozero'], ['const', rng.choice([0, 4, 7])],
+                           ['add', 1], ['ident'], ['rejectoddsub']])
     r = rng.random()
     if r < 0.2:
         return ['max', rng.choice([0, 2, 5, 9])]
@@ -283,9 +286,9 @@ def gen_desc(rng):
     return ['rejectall']
 
 
-def gen_chain(rng, maxlen):
+def gen_chain(rng, maxlen, benign=False):
     n = rng.choice([0, 1, 1, 2, 2, 3] + list(range(maxlen + 1)))
-    return [gen_desc(rng) for _ in range(n)]
+    return [gen_desc(rng, benign) for _ in range(n)]
 
 
 def boundary_chain(rng, maxlen):
@@ -311,10 +314,12 @@ def gen_sig(rng, n, method, kwonly_p=0.3, varkw_p=0.08):
     return {'params': ps, 'varkw': rng.random() < varkw_p, 'method': method}
 
 
-def gen_param(rng, n, maxchain, kinds=('plain', 'plain', 'plain', 'hext', 'hext', 'env')):
+def gen_param(rng, n, maxchain, kinds=('plain', 'plain', 'plain', 'hext', 'hext', 'env'), benign=False):
     kind = rng.choice(kinds)
     conv = rng.choice([0, 0, 0, 1, 1, 2, 3]) if kind != 'env' else rng.choice([1, 2, 2, 3])
-    p = {'n': n, 'kind': kind, 'conv': conv, 'chain': gen_chain(rng, maxchain), 'required': rng.random() < 0.65,
+    if benign:
+        conv = rng.choice([0, 0, 1]) if kind != 'env' else rng.choice([1, 1, 2])
+    p = {'n': n, 'kind': kind, 'conv': conv, 'chain': gen_chain(rng, maxchain, benign), 'required': rng.random() < 0.65,
          'default': gen_val(rng) if rng.random() < 0.25 else None, 'ext': None}
     if kind == 'hext':
         r = rng.random()
@@ -333,11 +338,11 @@ def named(sig):
     return [sp for sp in sig['params'] if sp['n'] != 0]
 
 
-def gen_decl(rng, sig, strict, maxchain, kinds=None):
+def gen_decl(rng, sig, strict, maxchain, kinds=None, benign=False):
     ps = []
     for sp in named(sig):
         if strict or rng.random() < 0.8:
-            ps.append(gen_param(rng, sp['n'], maxchain, *( [kinds] if kinds else [])))
+            ps.append(gen_param(rng, sp['n'], maxchain, *([kinds] if kinds else []), benign=benign))
     rng.shuffle(ps)
     return ps
 
@@ -399,7 +404,7 @@ def gen_random_case(rng, maxchain, maxn=4, tag='valid'):
     method = rng.random() < 0.3
     sig = gen_sig(rng, rng.randint(1, maxn), method)
     strict = rng.random() < 0.6
-    params = gen_decl(rng, sig, strict, maxchain)
+    params = gen_decl(rng, sig, strict, maxchain, benign=rng.random() < 0.35)
     if rng.random() < 0.25 and params:                        # first rejection at a chosen chain position
         p = rng.choice(params)
         p['chain'], v = boundary_chain(rng, maxchain)
@@ -460,8 +465,16 @@ def gen_matrix(rng, maxchain, n, cap_styles, modes=(0, 1, 2), flask=False):
     if flask:
         rq = gen_request(rng, sig)
         kinds = ('plain', 'fjson', 'fjson', 'fform', 'fget', 'fheader', 'hext', 'env')
-    params = gen_decl(rng, sig, strict, maxchain, kinds)
+    benign = rng.random() < 0.6
+    params = gen_decl(rng, sig, strict, maxchain, kinds, benign=benign)
     asg = gen_assignment(rng, sig, params, rq)
+    if benign:                                   # mostly acceptable values: small ints / their numerals, rarely None
+        for sp in named(sig):
+            if sp['n'] not in asg and rng.random() < 0.7:
+                asg[sp['n']] = [1, 2, 0]
+        for n in asg:
+            if rng.random() < 0.85:
+                asg[n] = rng.choice([[1, rng.choice([0, 2, 3, 8]), 0], [1, rng.choice([0, 2, 4]), 0], [3, rng.choice([0, 2, 8]), 0]])
     ignore = rng.random() < 0.06
     out = []
     gid = rng.getrandbits(48)
